@@ -559,12 +559,19 @@ def run(tier):
                       "drv/layout.c and drv/layout_cxx.cpp project the state without judgement",
                       "the tables in Layout.tla are a faithful reading of the documented names/defaults",
                       "reals are exercised on exactly representable values only; string ownership is observed, not proved"]
+    # extension X20: layout objects created from and bound through descriptions (checks/x20_tree.py, docs/X20_tree.md)
+    import x20_tree
+    if x20_tree.enabled():
+        x20_tree.run_part(ck, tier)
     return ck.finish()
 
 
 def replay(path):
     d = json.load(open(path))
     det = d["detail"]
+    if det.get("x20"):
+        import x20_tree
+        return x20_tree.replay(det, path)
     beh = det.get("behaviour")
     if not beh:
         print(json.dumps(det, indent=1)[:4000])
